@@ -537,7 +537,8 @@ impl<'a> Parse<'a> for ResultList<'a> {
         if Type::peek(&mut lookahead) {
             Ok(Self::Scalar(Parse::parse(lexer)?))
         } else {
-            Ok(Self::Empty)
+            // A `->` must be followed by a result type
+            Err(lookahead.error())
         }
     }
 }
